@@ -16,29 +16,20 @@ theorem recv_msgOk (sr : Msg → Bool) (env : Env) (c : Conn) (m : Msg) :
   rw [h] at this
   cases r <;> simpa [deliveries] using this
 
-/-- the peer-triggered backward moves of the expected number (finding D6 and its relatives): a
-Reset-mode SequenceReset whose NewSeqNo is below the expected number – or which has no usable NewSeqNo
-while its own MsgSeqNum is below the expected number -/
+/-- the peer-triggered backward move of the expected number (finding D6): a Reset-mode SequenceReset
+whose NewSeqNo is below the expected number -/
 def backwardReset (c : Conn) (m : Msg) : Bool :=
-  m.mtype == mSequenceReset && !isGapFill m &&
-    ((newSeqOf m).any (fun nw => decide (nw < c.sess.nextIn)) ||
-     ((newSeqOf m).all (fun nw => decide (nw ≤ 0)) && (seqOf m).any (fun n => decide (n < c.sess.nextIn))))
+  m.mtype == mSequenceReset && !isGapFill m && (newSeqOf m).any (fun nw => decide (nw < c.sess.nextIn))
 
 theorem moves_forward {c : Conn} {m : Msg} {k : Int} (h : Moves c m k) (hb : backwardReset c m = false) :
     c.sess.nextIn ≤ k := by
-  rcases h with h | ⟨-, -, h⟩ | ⟨hm, n, hn, hk, hg⟩ | ⟨hm, hg, hn, hnw⟩
+  rcases h with h | ⟨-, -, h⟩ | ⟨hm, n, hn, hk, hg⟩
   · omega
   · omega
   · cases hgf : isGapFill m
-    · simp [backwardReset, hm, hgf, hk, hn] at hb
+    · simp [backwardReset, hm, hgf, hk] at hb
       omega
     · have := hg hgf
-      omega
-  · cases hnew : newSeqOf m with
-    | none => simp [backwardReset, hm, hg, hn, hnew] at hb; omega
-    | some nw =>
-      have := hnw nw hnew
-      simp [backwardReset, hm, hg, hn, hnew, this] at hb
       omega
 
 /-- summary of one step of a history: the expected number does not go back; at most one message is
